@@ -121,9 +121,11 @@ def parseBlockD (s : String) : Option Block :=
      | _, _ => none)
   | _ => none
 
-def parseParamD (s : String) : Option (Ty × Core3.Ident) :=
+/-- `<ty>~<ident>[~<i>,<i>…]`: a parameter with the positions of its attributes in `kParamAttr` -/
+def parseParamD (s : String) : Option ((Ty × Core3.Ident) × List Nat) :=
   match s.splitOn "~" with
-  | [t, i] => (match tyArg t, parseIdentD i with | some t, some i => some (t, i) | _, _ => none)
+  | [t, i] => (match tyArg t, parseIdentD i with | some t, some i => some ((t, i), []) | _, _ => none)
+  | [t, i, a] => (match tyArg t, parseIdentD i with | some t, some i => some ((t, i), (a.splitOn ",").filterMap String.toNat?) | _, _ => none)
   | _ => none
 
 def parseFuncD (rt nm ps bs : String) : Option Func :=
@@ -145,7 +147,7 @@ def parseFuncD (rt nm ps bs : String) : Option Func :=
     | 'g' :: r => { t with gc := argHex (String.ofList r) }
     | _ => t) {}
   match tyArg rt, params, blocks with
-  | some rt, some ps, some bs => some ⟨rt, argHex nmHex, ps, bs, lead, tail⟩
+  | some rt, some ps, some bs => some ⟨rt, argHex nmHex, ps.map (·.1), bs, lead, tail, ps.map (·.2)⟩
   | _, _, _ => none
 
 def splitLines (s : Bytes) : List Bytes :=
